@@ -70,7 +70,6 @@ macro_rules! op_probe {
             $($bound)*
         {
             fn $get(&self) -> Option<OpFn<T>> {
-                #[allow(unused_variables)]
                 Some(|$c, $d, $t| $body)
             }
         }
@@ -316,7 +315,7 @@ fn colours<S: Fl>(kind: Kind, full: bool) -> (Vec<[S; 3]>, Vec<[S; 3]>) {
 fn factors<S: Fl>(full: bool) -> Vec<S> {
     let mut v: Vec<S> = [0.0, 1.0, 0.25, -0.5, 1.5, 30.0].iter().map(|&x| S::from64(x)).collect();
     if full {
-        v.extend([-0.0, 1e-9, 0.5, 0.75, -1.0, 180.0, -400.0].iter().map(|&x| S::from64(x)));
+        v.extend([-0.0, 0.5, 180.0, -400.0].iter().map(|&x| S::from64(x)));
         v.push(S::from64(1.0).down());
     }
     v
@@ -418,20 +417,13 @@ fn scales(kind: Kind) -> [f64; 4] {
 }
 /// Relative tolerance of the SIMD-vs-scalar comparison of an operator result component:
 /// |Δ| <= tol * max(scale of the component, |expected|). Plain arithmetic operators agree bitwise
-/// on the pinned tree; CIEDE2000 and the WCAG contrast go through `wide`'s atan2/sin/cos/exp/pow
-/// kernels (f32: observed 2e-6 relative).
-pub fn tol_op<S: Fl>(op: &str) -> f64 {
-    let transcendental = matches!(op, "ciede2000" | "relative_contrast");
+/// on the pinned tree; delta_e/CIEDE2000 of Lch and the WCAG contrast go through `wide`'s
+/// sin_cos/atan2/exp/pow kernels (observed: 1.3e-7 relative in f32, 1.9e-16 in f64).
+pub fn tol_op<S: Fl>(_op: &str) -> f64 {
     if S::NAME == "f32" {
-        if transcendental {
-            1e-4
-        } else {
-            1e-5
-        }
-    } else if transcendental {
-        1e-9
+        1e-5
     } else {
-        1e-13
+        1e-12
     }
 }
 /// CIEDE2000 is discontinuous where the two hues are opposite (|Δh'| = 180°, Sharma et al. 2005
